@@ -140,7 +140,10 @@ let () =
          (* "objects=memory" when every reported object is a NUMA node or a MemCache *)
          let is_mem (_, i) = match Stdlib.List.nth_opt cur.pd.t_objs (int_of_n i) with
            | Some o -> let t = int_of_n o.o_type in t = 14 || t = 15 | None -> false in
-         print_endline ("wf VIOLATION " ^ show_viols vs ^ (if Stdlib.List.for_all is_mem vs then " objects=memory" else "")));
+         (* "sets=offline" when some object's complete_cpuset differs from its cpuset (offline / disallowed PUs) *)
+         let offline = Stdlib.List.exists (fun (o : dobj) -> o.o_ccs <> o.o_cs) cur.pd.t_objs in
+         print_endline ("wf VIOLATION " ^ show_viols vs ^ (if Stdlib.List.for_all is_mem vs then " objects=memory" else "")
+                        ^ (if offline then " sets=offline" else "")));
     if same || levels_agree cur.pd then print_endline "levels ok" else print_endline "levels DIFF";
     (match !prev with
      | Some b when not same && not (starts !call "CALL reload") ->
